@@ -33,7 +33,9 @@ func runC07(c *Ctx) {
 	ruleCompletedOnlyOnSuccess(c, "R7.5")
 	ruleChainInfoInputs(c, "R7.6")
 	ruleJoinerCatchesUp(c, "R7.7")
-	ruleAggregation(c, "R7.8")      // across the switch the aggregator reads threshold and size of the group that is live at each round
+	ruleAggregation(c, "R7.8") // across the switch the aggregator reads threshold and size of the group that is live at each round
+	ruleMigratedStateKeepsIdentity(c, "R7.10")
+	ruleDKGListenerOutlivesItsCreator(c, "R7.11")
 	ruleIndexConsistency(c, "R7.9") // a node keeps the index its share was dealt for
 }
 
@@ -875,4 +877,101 @@ func ruleJoinerCatchesUp(c *Ctx, rule string) {
 		c.Ok(rule, "joinNetwork starts the beacon in catch-up mode for every epoch after the first", shortPos(c.P, ci), ok, detail)
 	}
 	c.Floor(rule, "StartBeacon calls in joinNetwork", n, 1)
+}
+
+// R7.10: the DKG state a node rebuilds from its group file (upgrade from v1, lost database) carries the chain's identity
+// verbatim: genesis seed, genesis time, period and scheme are read from the same-named fields of the group file. The next
+// resharing copies them into its terms; a seed recomputed from the group's hash names another chain as soon as the group
+// on disk is itself the result of a resharing.
+func ruleMigratedStateKeepsIdentity(c *Ctx, rule string) {
+	c.ranRules[rule] = true
+	fn := c.P.Fn("internal/dkg.(*BoltStore).MigrateFromGroupfile")
+	if !c.Anchor(rule, "internal/dkg.(*BoltStore).MigrateFromGroupfile", fn != nil) {
+		return
+	}
+	want := map[string]string{"GenesisSeed": "GenesisSeed", "GenesisTime": "GenesisTime", "BeaconPeriod": "Period", "SchemeID": "Scheme", "CatchupPeriod": "CatchupPeriod", "Threshold": "Threshold"}
+	n := 0
+	forEachInstr(fn, func(_ *ssa.BasicBlock, _ int, in ssa.Instruction) {
+		st, ok := in.(*ssa.Store)
+		if !ok {
+			return
+		}
+		fa, ok := st.Addr.(*ssa.FieldAddr)
+		if !ok || !strings.HasSuffix(typeShort(fa.X.Type()), "internal/dkg.DBState") {
+			return
+		}
+		f := fieldName(fa.X.Type(), fa.Field)
+		src, tracked := want[f]
+		if !tracked {
+			return
+		}
+		n++
+		os := Origins(st.Val)
+		fromField := hasOrigin(os, func(o Origin) bool { return o.Kind == "field" && strings.HasSuffix(o.Name, "key.Group."+src) }) || strings.Contains(pathOf(st.Val), "."+src)
+		computed := ""
+		for _, o := range os {
+			if o.Kind == "call" && !strings.HasPrefix(o.Name, "time.") && !strings.HasSuffix(o.Name, ".UTC") {
+				computed = o.Name
+			}
+		}
+		c.Ok(rule, "MigrateFromGroupfile takes DBState."+f+" from the group file's "+src, shortPos(c.P, in), fromField && computed == "",
+			ifs(computed != "", "computed by "+computed, "origins: "+strings.Join(originStrings(os), ",")))
+	})
+	c.Floor(rule, "identity fields of the migrated state", n, 5)
+}
+
+// R7.11: the goroutine that applies the output of every later resharing lives as long as the beacon process, not as
+// long as the request that created the process: the context it hands on is detached (context.Background through the
+// tracer's NewSpanFromContext, or context.WithoutCancel), never the creator's context itself.
+func ruleDKGListenerOutlivesItsCreator(c *Ctx, rule string) {
+	c.ranRules[rule] = true
+	fn := c.P.Fn("internal/core.(*BeaconProcess).StartListeningForDKGUpdates")
+	if !c.Anchor(rule, "internal/core.(*BeaconProcess).StartListeningForDKGUpdates", fn != nil) {
+		return
+	}
+	n := 0
+	for _, ci := range callsIn(fn, func(ci ssa.CallInstruction) bool {
+		return strings.HasSuffix(calleeName(ci), "BeaconProcess).onDKGCompleted")
+	}) {
+		n++
+		ctx := ci.Common().Args[1]
+		detached, why := false, "the context handed to onDKGCompleted is the creator's"
+		var walk func(v ssa.Value, d int)
+		walk = func(v ssa.Value, d int) {
+			v = stripConv(v)
+			if d > 6 || v == nil {
+				return
+			}
+			switch x := v.(type) {
+			case *ssa.Extract:
+				walk(x.Tuple, d+1)
+			case *ssa.Phi:
+				for _, e := range x.Edges {
+					walk(e, d+1)
+				}
+			case *ssa.UnOp:
+				if a, ok := x.X.(*ssa.Alloc); ok {
+					for _, r := range *a.Referrers() {
+						if st, ok := r.(*ssa.Store); ok && st.Addr == ssa.Value(a) {
+							walk(st.Val, d+1)
+						}
+					}
+				}
+			case *ssa.Call:
+				name := calleeName(x)
+				switch {
+				case name == "context.Background", name == "context.WithoutCancel", name == "context.TODO":
+					detached, why = true, "detached with "+name
+				case strings.HasSuffix(name, "common/tracer.NewSpanFromContext"):
+					// NewSpanFromContext(parent, spanCarrier, name): lifetime follows the first argument
+					walk(x.Call.Args[0], d+1)
+				case strings.HasPrefix(name, "context.With"), strings.HasSuffix(name, "common/tracer.NewSpan"):
+					walk(x.Call.Args[0], d+1)
+				}
+			}
+		}
+		walk(ctx, 0)
+		c.Ok(rule, "the DKG-output listener hands on a context that outlives the request that created the process", shortPos(c.P, ci), detached, why)
+	}
+	c.Floor(rule, "onDKGCompleted calls in the listener", n, 1)
 }
